@@ -350,6 +350,19 @@ func augParams(c *Ctx, a *flAgg) {
 			okRecv = false
 			whyRecv = fmt.Sprintf("the receiver is counted=%v on a path where 'exactly one receiver, of pointer type' is %v (%s)", included, want, litsString(p))
 		}
+		// left out only for one of the three reasons: no receiver list, not
+		// exactly one receiver, not a pointer receiver (an unnamed pointer
+		// receiver "func (*T) m()" is still printed as the first word)
+		if !included {
+			reason := (h1 && recvNil) || (h2 && !one) || (h3 && !star)
+			if isNil, have := p.lit("(" + recv0 + " == nil)"); have && isNil {
+				reason = true
+			}
+			if !reason {
+				okRecv = false
+				whyRecv = "the receiver is left out on a path where it is neither absent, nor one of several, nor a value receiver (" + litsString(p) + ")"
+			}
+		}
 		// per element
 		ls := L.String()
 		for k := 0; k < 3; k++ {
@@ -408,5 +421,64 @@ func augParams(c *Ctx, a *flAgg) {
 		a.ok(rule, "extractArgumentsType/multiplicity", fmt.Sprintf("each field contributes its type once per name, once when unnamed (%d paths)", nPaths), fn.Pos())
 	} else {
 		a.bad(rule, "extractArgumentsType/multiplicity", whyMult+": the arguments after it are decoded against the wrong types", fn.Pos())
+	}
+}
+
+// augFuncASTOrder (AUG-name/getFuncAST-order): the declaration a frame's line
+// lies in is the last FuncDecl that *starts before* the line: the walk
+// remembers a declaration only on the path on which the node's position is
+// below the line's offset. Remembering it before the position test makes a
+// frame reported on the closing brace of a function (a deferred call
+// panicking on return) take the *next* declaration.
+func augFuncASTOrder(c *Ctx, a *flAgg) {
+	fn := c.L.Func("stack", "parsedFile", "getFuncAST")
+	if fn == nil {
+		return
+	}
+	exprHome = fn.Pkg.Pkg
+	n, bad := 0, ""
+	anons := append([]*ssa.Function{}, fn.AnonFuncs...)
+	for _, h := range blocksOwners(fn)[1:] {
+		anons = append(anons, h.AnonFuncs...) // the walk moved into a helper
+	}
+	for _, af := range anons {
+		x := &SPE{Fn: af, MaxVisits: 2}
+		x.Explore()
+		for _, p := range x.Paths {
+			stored := false
+			for _, ev := range p.Events {
+				if ev.Kind == EvStore && strings.Contains(ev.Addr.String(), "lastFunc") {
+					stored = true
+				}
+			}
+			if !stored {
+				continue
+			}
+			n++
+			// the position test must have been made, and failed, on this path
+			before := false
+			for _, lt := range p.Lits {
+				at := lt.Atom
+				if at.Op == OpBin && at.Tok == token.LSS && len(at.Args) == 2 && (strings.Contains(at.Args[0].String(), "Pos(") != strings.Contains(at.Args[1].String(), "Pos(")) {
+					// (pos < offset) true, or (offset <= pos) ... normalised to LSS
+					if strings.Contains(at.Args[0].String(), "Pos(") {
+						before = lt.Pol
+					} else {
+						before = !lt.Pol
+					}
+				}
+			}
+			if !before {
+				bad = litsString(p)
+			}
+		}
+	}
+	switch {
+	case n == 0:
+		a.und("AUG-name", "getFuncAST/order", "the walk never remembers a declaration", fn.Pos())
+	case bad != "":
+		a.bad("AUG-name", "getFuncAST/order", "a declaration is remembered on a path on which its position was not found to lie before the frame's line ("+bad+"): a frame on the closing brace of a function is decoded with the signature of the next declaration", fn.Pos())
+	default:
+		a.ok("AUG-name", "getFuncAST/order", "a declaration is remembered only when it starts before the frame's line", fn.Pos())
 	}
 }
